@@ -1,9 +1,1266 @@
-//! C02 — (stub; not built yet)
+//! C02 — Partition-improving algorithms keep a valid partition valid.
+//!
+//! All six improvers run through the public API on inputs inside the usage contract (valid
+//! partition: every id 0..=max used; matching lengths; non-negative weights with positive total;
+//! symmetric loop-free graphs with positive integer edge weights; two parts for FM / KL).
+//!
+//! ops (first token = algorithm; `threads` = rayon pool size):
+//!  `vnbest|vnfirst <i64|u64|f64> <threads> <n> <w…> <m> <ids…>`                (tail = C14's op)
+//!  `kl <threads> <max_passes|-> <max_flips|-> <max_bad> <wlen> <n> <ids…> <rows> {<deg> {<j> <w>}}`
+//!                                                                                (tail = C15's op)
+//!  `fm <threads> <wt:i|f> <max_imbalance: none|f64 hex> <max_bad> <max_passes: none|N>
+//!      <max_moves: none|N> <rows> {<deg> {<j> <w>}} <m> <ids…> <l> <ws…>`       (tail = C07's op)
+//!      recorded with ` => <ids> | <moves_per_pass> | <rewinded_moves_per_pass>` (HashSet order:
+//!      on tie-sensitive cases the model searches a choice sequence giving that line)
+//!  `arcswap <threads> <wt:i|f> <max_imbalance: none|f64 hex> <rows> {<deg> {<j> <w>}} <m> <ids…> <l> <ws…>`
+//!  `kmeans2|kmeans3 <threads> <imbalance_tol hex> <delta_threshold hex> <max_iter> <max_balance_iter>
+//!      <erode 0|1> <mbr_early_break 0|1> <n> <ids…> <coords: n*D integers, value = t/16> <weights: n
+//!      integers, value = t/4>`
+//!      recorded with ` => ` + the sweeps reported by the k-means hook
+//!      (`coupe::verif_hooks::set_kmeans_observer`): `S <k> <center_ids…> <nchg> {<point> <id>}…`
+//!      = one assignment sweep (centre ids in the order used, entries that changed), `R <c>` = `c`
+//!      further sweeps identical to the previous one (same order, nothing changed).
+//!  A stale ` => …` suffix of a corpus line is ignored and recomputed.
+//! out: `ok <ids>` | `err <error>` | `panic file:line: message` | `hang`
 
 use crate::common::*;
+use coupe::sprs::CsMat;
+use coupe::Partition as _;
+use std::sync::{Arc, Mutex};
 
-pub fn generate(_ctx: &mut Ctx) {}
+type Rows = Vec<Vec<(usize, i64)>>;
+
+#[derive(Clone, Debug)]
+enum Case {
+    Vn { best: bool, ty: String, threads: usize, ws: Vec<i64>, ids: Vec<usize> },
+    Kl { threads: usize, mp: Option<usize>, mf: Option<usize>, mb: usize, wlen: usize, ids: Vec<usize>, rows: Rows },
+    Fm {
+        threads: usize,
+        f64w: bool,
+        mi: Option<f64>,
+        mb: usize,
+        mp: Option<usize>,
+        mm: Option<usize>,
+        rows: Rows,
+        ids: Vec<usize>,
+        ws: Vec<i64>,
+    },
+    ArcSwap { threads: usize, f64w: bool, mi: Option<f64>, rows: Rows, ids: Vec<usize>, ws: Vec<i64> },
+    KMeans {
+        dim: usize,
+        threads: usize,
+        tol: f64,
+        delta: f64,
+        max_iter: usize,
+        max_balance_iter: usize,
+        erode: bool,
+        mbr: bool,
+        ids: Vec<usize>,
+        /// coordinates x 16, row-major
+        coords: Vec<i64>,
+        /// weights x 4
+        ws: Vec<i64>,
+    },
+}
+
+impl Case {
+    fn algo(&self) -> &'static str {
+        match self {
+            Case::Vn { best: true, .. } => "vnbest",
+            Case::Vn { best: false, .. } => "vnfirst",
+            Case::Kl { .. } => "kl",
+            Case::Fm { .. } => "fm",
+            Case::ArcSwap { .. } => "arcswap",
+            Case::KMeans { dim: 2, .. } => "kmeans2",
+            Case::KMeans { .. } => "kmeans3",
+        }
+    }
+    fn ids(&self) -> &[usize] {
+        match self {
+            Case::Vn { ids, .. }
+            | Case::Kl { ids, .. }
+            | Case::Fm { ids, .. }
+            | Case::ArcSwap { ids, .. }
+            | Case::KMeans { ids, .. } => ids,
+        }
+    }
+}
+
+// ------------------------------------------------------------------ protocol
+
+fn opt_dash(x: Option<usize>) -> String {
+    x.map(|v| v.to_string()).unwrap_or_else(|| "-".into())
+}
+fn opt_none(x: Option<usize>) -> String {
+    x.map(|v| v.to_string()).unwrap_or_else(|| "none".into())
+}
+fn opt_hex(x: Option<f64>) -> String {
+    x.map(|v| format!("{:x}", v.to_bits())).unwrap_or_else(|| "none".into())
+}
+fn push_rows(s: &mut String, rows: &Rows) {
+    s.push_str(&format!(" {}", rows.len()));
+    for r in rows {
+        s.push_str(&format!(" {}", r.len()));
+        for (j, w) in r {
+            s.push_str(&format!(" {} {}", j, w));
+        }
+    }
+}
+fn push_list<T: std::fmt::Display>(s: &mut String, xs: &[T]) {
+    s.push_str(&format!(" {}", xs.len()));
+    for x in xs {
+        s.push_str(&format!(" {}", x));
+    }
+}
+fn list(xs: &[usize]) -> String {
+    if xs.is_empty() {
+        "-".into()
+    } else {
+        join(xs)
+    }
+}
+
+fn format_op(c: &Case) -> String {
+    let mut s = String::new();
+    match c {
+        Case::Vn { ty, threads, ws, ids, .. } => {
+            s.push_str(&format!("{} {} {}", c.algo(), ty, threads));
+            push_list(&mut s, ws);
+            push_list(&mut s, ids);
+        }
+        Case::Kl { threads, mp, mf, mb, wlen, ids, rows } => {
+            s.push_str(&format!("kl {} {} {} {} {}", threads, opt_dash(*mp), opt_dash(*mf), mb, wlen));
+            push_list(&mut s, ids);
+            push_rows(&mut s, rows);
+        }
+        Case::Fm { threads, f64w, mi, mb, mp, mm, rows, ids, ws } => {
+            s.push_str(&format!(
+                "fm {} {} {} {} {} {}",
+                threads,
+                if *f64w { "f" } else { "i" },
+                opt_hex(*mi),
+                mb,
+                opt_none(*mp),
+                opt_none(*mm)
+            ));
+            push_rows(&mut s, rows);
+            push_list(&mut s, ids);
+            push_list(&mut s, ws);
+        }
+        Case::ArcSwap { threads, f64w, mi, rows, ids, ws } => {
+            s.push_str(&format!("arcswap {} {} {}", threads, if *f64w { "f" } else { "i" }, opt_hex(*mi)));
+            push_rows(&mut s, rows);
+            push_list(&mut s, ids);
+            push_list(&mut s, ws);
+        }
+        Case::KMeans { threads, tol, delta, max_iter, max_balance_iter, erode, mbr, ids, coords, ws, .. } => {
+            s.push_str(&format!(
+                "{} {} {:x} {:x} {} {} {} {}",
+                c.algo(),
+                threads,
+                tol.to_bits(),
+                delta.to_bits(),
+                max_iter,
+                max_balance_iter,
+                *erode as u8,
+                *mbr as u8
+            ));
+            push_list(&mut s, ids);
+            for x in coords {
+                s.push_str(&format!(" {}", x));
+            }
+            for x in ws {
+                s.push_str(&format!(" {}", x));
+            }
+        }
+    }
+    s
+}
+
+struct Toks<'a>(std::str::SplitWhitespace<'a>);
+impl<'a> Toks<'a> {
+    fn s(&mut self) -> Option<&'a str> {
+        self.0.next()
+    }
+    fn u(&mut self) -> Option<usize> {
+        self.s()?.parse().ok()
+    }
+    fn i(&mut self) -> Option<i64> {
+        self.s()?.parse().ok()
+    }
+    fn opt(&mut self, none: &str) -> Option<Option<usize>> {
+        let t = self.s()?;
+        if t == none {
+            Some(None)
+        } else {
+            t.parse().ok().map(Some)
+        }
+    }
+    fn hex(&mut self) -> Option<f64> {
+        Some(f64::from_bits(u64::from_str_radix(self.s()?, 16).ok()?))
+    }
+    fn opt_hex(&mut self) -> Option<Option<f64>> {
+        let t = self.s()?;
+        if t == "none" {
+            Some(None)
+        } else {
+            Some(Some(f64::from_bits(u64::from_str_radix(t, 16).ok()?)))
+        }
+    }
+    fn us(&mut self, n: usize) -> Option<Vec<usize>> {
+        (0..n).map(|_| self.u()).collect()
+    }
+    fn is(&mut self, n: usize) -> Option<Vec<i64>> {
+        (0..n).map(|_| self.i()).collect()
+    }
+    fn counted_us(&mut self) -> Option<Vec<usize>> {
+        let n = self.u()?;
+        if n > 1 << 20 {
+            return None;
+        }
+        self.us(n)
+    }
+    fn counted_is(&mut self) -> Option<Vec<i64>> {
+        let n = self.u()?;
+        if n > 1 << 20 {
+            return None;
+        }
+        self.is(n)
+    }
+    fn rows(&mut self) -> Option<Rows> {
+        let n = self.u()?;
+        if n > 1 << 16 {
+            return None;
+        }
+        let mut rows = Vec::with_capacity(n);
+        for _ in 0..n {
+            let d = self.u()?;
+            let mut r = Vec::new();
+            for _ in 0..d {
+                let j = self.u()?;
+                let w = self.i()?;
+                r.push((j, w));
+            }
+            rows.push(r);
+        }
+        // sprs invariants: square, indices in range, strictly ascending rows
+        for r in &rows {
+            for (k, (j, _)) in r.iter().enumerate() {
+                if *j >= n || (k > 0 && r[k - 1].0 >= *j) {
+                    return None;
+                }
+            }
+        }
+        Some(rows)
+    }
+    fn done(&mut self) -> Option<()> {
+        if self.0.next().is_some() {
+            None
+        } else {
+            Some(())
+        }
+    }
+}
+
+fn parse_op(op: &str) -> Option<Case> {
+    let base = op.split("=>").next()?;
+    let mut t = Toks(base.split_whitespace());
+    let algo = t.s()?;
+    let c = match algo {
+        "vnbest" | "vnfirst" => {
+            let ty = t.s()?.to_string();
+            if !["i64", "u64", "f64"].contains(&ty.as_str()) {
+                return None;
+            }
+            let threads = t.u()?;
+            let ws = t.counted_is()?;
+            let ids = t.counted_us()?;
+            if ty == "u64" && ws.iter().any(|&w| w < 0) {
+                return None;
+            }
+            Case::Vn { best: algo == "vnbest", ty, threads, ws, ids }
+        }
+        "kl" => {
+            let threads = t.u()?;
+            let mp = t.opt("-")?;
+            let mf = t.opt("-")?;
+            let mb = t.u()?;
+            let wlen = t.u()?;
+            let ids = t.counted_us()?;
+            let rows = t.rows()?;
+            if wlen > 1 << 20 {
+                return None;
+            }
+            Case::Kl { threads, mp, mf, mb, wlen, ids, rows }
+        }
+        "fm" => {
+            let threads = t.u()?;
+            let f64w = match t.s()? {
+                "f" => true,
+                "i" => false,
+                _ => return None,
+            };
+            let mi = t.opt_hex()?;
+            let mb = t.u()?;
+            let mp = t.opt("none")?;
+            let mm = t.opt("none")?;
+            let rows = t.rows()?;
+            let ids = t.counted_us()?;
+            let ws = t.counted_is()?;
+            Case::Fm { threads, f64w, mi, mb, mp, mm, rows, ids, ws }
+        }
+        "arcswap" => {
+            let threads = t.u()?;
+            let f64w = match t.s()? {
+                "f" => true,
+                "i" => false,
+                _ => return None,
+            };
+            let mi = t.opt_hex()?;
+            let rows = t.rows()?;
+            let ids = t.counted_us()?;
+            let ws = t.counted_is()?;
+            Case::ArcSwap { threads, f64w, mi, rows, ids, ws }
+        }
+        "kmeans2" | "kmeans3" => {
+            let dim = if algo == "kmeans2" { 2 } else { 3 };
+            let threads = t.u()?;
+            let tol = t.hex()?;
+            let delta = t.hex()?;
+            let max_iter = t.u()?;
+            let max_balance_iter = t.u()?;
+            let erode = t.u()? != 0;
+            let mbr = t.u()? != 0;
+            let ids = t.counted_us()?;
+            let coords = t.is(ids.len() * dim)?;
+            let ws = t.is(ids.len())?;
+            if max_iter > 100_000 || max_balance_iter > 1000 {
+                return None;
+            }
+            Case::KMeans { dim, threads, tol, delta, max_iter, max_balance_iter, erode, mbr, ids, coords, ws }
+        }
+        _ => return None,
+    };
+    t.done()?;
+    let threads = match &c {
+        Case::Vn { threads, .. }
+        | Case::Kl { threads, .. }
+        | Case::Fm { threads, .. }
+        | Case::ArcSwap { threads, .. }
+        | Case::KMeans { threads, .. } => *threads,
+    };
+    if threads < 1 || threads > 16 {
+        return None;
+    }
+    Some(c)
+}
+
+// ------------------------------------------------------------------ running the implementation
+
+/// A rayon pool with roomy worker stacks (`balanced_k_means_iter` recurses `max_iter` deep and the
+/// closure runs ON a worker).
+fn pool(threads: usize) -> coupe::rayon::ThreadPool {
+    coupe::rayon::ThreadPoolBuilder::new()
+        .num_threads(threads)
+        .stack_size(64 << 20)
+        .build()
+        .expect("pool")
+}
+
+fn csmat<T: Clone>(rows: &Rows, conv: impl Fn(i64) -> T) -> CsMat<T> {
+    let n = rows.len();
+    let mut indptr = vec![0usize];
+    let mut indices = vec![];
+    let mut data = vec![];
+    for r in rows {
+        for (j, w) in r {
+            indices.push(*j);
+            data.push(conv(*w));
+        }
+        indptr.push(indices.len());
+    }
+    CsMat::new((n, n), indptr, indices, data)
+}
+
+enum Ran {
+    /// ids afterwards + FM metadata (moves, rewound)
+    Ok(Vec<usize>, Option<(Vec<usize>, Vec<usize>)>),
+    Err(String),
+    Panic(String),
+    Hang,
+}
+
+type Sweeps = Vec<(Vec<usize>, Vec<usize>)>;
+
+fn err_name(e: &coupe::Error) -> String {
+    match e {
+        coupe::Error::InputLenMismatch { .. } => "lenmismatch".into(),
+        coupe::Error::BiPartitioningOnly => "bionly".into(),
+        coupe::Error::NegativeValues => "negative".into(),
+        e => format!("{:?}", e).split_whitespace().collect::<Vec<_>>().join("_"),
+    }
+}
+
+fn run_impl(c: &Case) -> (Ran, Sweeps) {
+    let c = c.clone();
+    let rec: Arc<Mutex<Sweeps>> = Arc::new(Mutex::new(Vec::new()));
+    let is_kmeans = matches!(c, Case::KMeans { .. });
+    if is_kmeans {
+        let rec2 = rec.clone();
+        coupe::verif_hooks::set_kmeans_observer(Some(Box::new(move |a: &[usize], cids: &[usize]| {
+            if let Ok(mut g) = rec2.lock() {
+                if g.len() < 20_000 {
+                    g.push((a.to_vec(), cids.to_vec()));
+                }
+            }
+        })));
+    }
+    type R = (Result<Option<(Vec<usize>, Vec<usize>)>, String>, Vec<usize>);
+    let res: Caught<R> = catch_timeout(20, move || {
+        let threads = match &c {
+            Case::Vn { threads, .. }
+            | Case::Kl { threads, .. }
+            | Case::Fm { threads, .. }
+            | Case::ArcSwap { threads, .. }
+            | Case::KMeans { threads, .. } => *threads,
+        };
+        let p = pool(threads);
+        p.install(move || -> R {
+            match c {
+                Case::Vn { best, ty, ws, ids, .. } => {
+                    let mut ids = ids;
+                    let r = match ty.as_str() {
+                        "i64" => {
+                            if best {
+                                coupe::VnBest.partition(&mut ids, ws.iter().cloned())
+                            } else {
+                                coupe::VnFirst.partition(&mut ids, &ws[..])
+                            }
+                        }
+                        "u64" => {
+                            let w: Vec<u64> = ws.iter().map(|&x| x as u64).collect();
+                            if best {
+                                coupe::VnBest.partition(&mut ids, w)
+                            } else {
+                                coupe::VnFirst.partition(&mut ids, &w[..])
+                            }
+                        }
+                        _ => {
+                            let w: Vec<f64> = ws.iter().map(|&x| x as f64).collect();
+                            if best {
+                                coupe::VnBest.partition(&mut ids, w)
+                            } else {
+                                coupe::VnFirst.partition(&mut ids, &w[..])
+                            }
+                        }
+                    };
+                    (r.map(|_| None).map_err(|e| err_name(&e)), ids)
+                }
+                Case::Kl { mp, mf, mb, wlen, ids, rows, .. } => {
+                    let mut ids = ids;
+                    let mat: CsMat<f64> = csmat(&rows, |w| w as f64);
+                    let weights = vec![1.0f64; wlen];
+                    let r = coupe::KernighanLin {
+                        max_passes: mp,
+                        max_flips_per_pass: mf,
+                        max_imbalance_per_flip: None,
+                        max_bad_move_in_a_row: mb,
+                    }
+                    .partition(&mut ids, (mat.view(), &weights[..]));
+                    (r.map(|_| None).map_err(|e| format!("{:?}", e)), ids)
+                }
+                Case::Fm { f64w, mi, mb, mp, mm, rows, ids, ws, .. } => {
+                    let mut ids = ids;
+                    let mat: CsMat<i64> = csmat(&rows, |w| w);
+                    let mut fm = coupe::FiducciaMattheyses {
+                        max_imbalance: mi,
+                        max_bad_move_in_a_row: mb,
+                        max_passes: mp,
+                        max_moves_per_pass: mm,
+                    };
+                    let r = if f64w {
+                        let w: Vec<f64> = ws.iter().map(|&x| x as f64).collect();
+                        fm.partition(&mut ids, (mat.view(), &w[..]))
+                    } else {
+                        fm.partition(&mut ids, (mat.view(), &ws[..]))
+                    };
+                    (
+                        r.map(|md| Some((md.moves_per_pass.clone(), md.rewinded_moves_per_pass.clone())))
+                            .map_err(|e| err_name(&e)),
+                        ids,
+                    )
+                }
+                Case::ArcSwap { f64w, mi, rows, ids, ws, .. } => {
+                    let mut ids = ids;
+                    let mat: CsMat<i64> = csmat(&rows, |w| w);
+                    let mut a = coupe::ArcSwap { max_imbalance: mi };
+                    let r = if f64w {
+                        let w: Vec<f64> = ws.iter().map(|&x| x as f64).collect();
+                        a.partition(&mut ids, (mat.view(), &w[..])).map(|_| ())
+                    } else {
+                        a.partition(&mut ids, (mat.view(), &ws[..])).map(|_| ())
+                    };
+                    (r.map(|_| None).map_err(|e| err_name(&e)), ids)
+                }
+                Case::KMeans { dim, tol, delta, max_iter, max_balance_iter, erode, mbr, ids, coords, ws, .. } => {
+                    let mut ids = ids;
+                    let w: Vec<f64> = ws.iter().map(|&x| x as f64 / 4.0).collect();
+                    let mut km = coupe::KMeans {
+                        imbalance_tol: tol,
+                        delta_threshold: delta,
+                        max_iter,
+                        max_balance_iter,
+                        erode,
+                        hilbert: true,
+                        mbr_early_break: mbr,
+                    };
+                    let x = |k: usize| coords[k] as f64 / 16.0;
+                    if dim == 2 {
+                        let pts: Vec<coupe::Point2D> =
+                            (0..ids.len()).map(|i| coupe::Point2D::new(x(2 * i), x(2 * i + 1))).collect();
+                        km.partition(&mut ids, (&pts[..], &w[..])).unwrap();
+                    } else {
+                        let pts: Vec<coupe::Point3D> = (0..ids.len())
+                            .map(|i| coupe::Point3D::new(x(3 * i), x(3 * i + 1), x(3 * i + 2)))
+                            .collect();
+                        km.partition(&mut ids, (&pts[..], &w[..])).unwrap();
+                    }
+                    (Ok(None), ids)
+                }
+            }
+        })
+    });
+    if is_kmeans {
+        coupe::verif_hooks::set_kmeans_observer(None);
+    }
+    let sweeps = rec.lock().map(|mut g| std::mem::take(&mut *g)).unwrap_or_default();
+    let ran = match res {
+        Caught::Ok((Ok(md), ids)) => Ran::Ok(ids, md),
+        Caught::Ok((Err(e), _)) => Ran::Err(e),
+        // assert messages may span several lines; the protocol is line based
+        Caught::Panic(m) => Ran::Panic(m.split_whitespace().collect::<Vec<_>>().join(" ")),
+        Caught::Hang => Ran::Hang,
+    };
+    (ran, sweeps)
+}
+
+/// The recorded sweeps as protocol tokens (see the module comment).
+fn encode_sweeps(ids0: &[usize], sweeps: &Sweeps) -> String {
+    let mut s = String::new();
+    let mut prev: Vec<usize> = ids0.to_vec();
+    let mut prev_c: Option<&Vec<usize>> = None;
+    let mut rep = 0usize;
+    for (a, c) in sweeps {
+        let chg: Vec<usize> = (0..a.len().max(prev.len())).filter(|&p| a.get(p) != prev.get(p)).collect();
+        if chg.is_empty() && prev_c == Some(c) {
+            rep += 1;
+        } else {
+            if rep > 0 {
+                s.push_str(&format!(" R {}", rep));
+                rep = 0;
+            }
+            s.push_str(&format!(" S {} {} {}", c.len(), join(c), chg.len()));
+            for p in chg {
+                // an entry beyond the array (cannot happen with a slice) would show as usize::MAX
+                s.push_str(&format!(" {} {}", p, a.get(p).copied().unwrap_or(usize::MAX)));
+            }
+        }
+        prev = a.clone();
+        prev_c = Some(c);
+    }
+    if rep > 0 {
+        s.push_str(&format!(" R {}", rep));
+    }
+    s.split_whitespace().collect::<Vec<_>>().join(" ")
+}
+
+// ------------------------------------------------------------------ contract + oracle
+
+/// Is the input inside the property's quantifier? `Err(why)` if not.
+fn contract(c: &Case) -> Result<(), &'static str> {
+    let ids = c.ids();
+    let n = ids.len();
+    if n == 0 {
+        return Err("empty");
+    }
+    let max = *ids.iter().max().unwrap();
+    let mut used = vec![false; max.min(1 << 20) + 1];
+    for &i in ids {
+        if i < used.len() {
+            used[i] = true;
+        }
+    }
+    if max >= 1 << 20 || used.iter().any(|u| !u) {
+        return Err("invalid-partition");
+    }
+    let graph_ok = |rows: &Rows| -> Result<(), &'static str> {
+        if rows.len() != n {
+            return Err("graph-size");
+        }
+        for (v, r) in rows.iter().enumerate() {
+            for &(j, w) in r {
+                if j == v {
+                    return Err("self-loop");
+                }
+                if w <= 0 {
+                    return Err("edge-weight");
+                }
+                if rows[j].iter().find(|(x, _)| *x == v).map(|(_, w2)| *w2) != Some(w) {
+                    return Err("asymmetric");
+                }
+            }
+        }
+        Ok(())
+    };
+    let weights_ok = |ws: &[i64]| -> Result<(), &'static str> {
+        if ws.len() != n {
+            return Err("weights-len");
+        }
+        if ws.iter().any(|&w| w < 0) {
+            return Err("negative-weight");
+        }
+        if ws.iter().map(|&w| w as i128).sum::<i128>() <= 0 {
+            return Err("zero-total");
+        }
+        Ok(())
+    };
+    match c {
+        Case::Vn { ws, .. } => weights_ok(ws),
+        Case::Kl { wlen, rows, .. } => {
+            if max != 1 {
+                return Err("not-two-way");
+            }
+            if *wlen != n {
+                return Err("weights-len");
+            }
+            graph_ok(rows)
+        }
+        Case::Fm { rows, ws, .. } => {
+            if max != 1 {
+                return Err("not-two-way");
+            }
+            weights_ok(ws)?;
+            graph_ok(rows)
+        }
+        Case::ArcSwap { rows, ws, .. } => {
+            weights_ok(ws)?;
+            graph_ok(rows)
+        }
+        Case::KMeans { ws, tol, delta, .. } => {
+            if tol.is_nan() || delta.is_nan() {
+                return Err("nan-setting");
+            }
+            weights_ok(ws)
+        }
+    }
+}
 
 pub fn run_op(ctx: &mut Ctx, op: &str) {
-    ctx.record(op.to_string(), "bad-op".into(), false);
+    let Some(c) = parse_op(op) else {
+        ctx.record(op.to_string(), "bad-op".into(), false);
+        return;
+    };
+    let algo = c.algo();
+    let base = format_op(&c);
+    let in_contract = contract(&c);
+    let ids0 = c.ids().to_vec();
+    let n = ids0.len();
+    let max0 = ids0.iter().copied().max().unwrap_or(0);
+    let (ran, sweeps) = run_impl(&c);
+    let mut verdict: Option<(String, String)> = None;
+    let mut suffix = String::new();
+    if let Case::KMeans { .. } = c {
+        suffix = format!(" => {}", encode_sweeps(&ids0, &sweeps));
+        ctx.count(&format!(
+            "kmeans:sweeps:{}",
+            match sweeps.len() {
+                0 => "0",
+                1 => "1",
+                2..=5 => "2-5",
+                6..=50 => "6-50",
+                _ => ">50",
+            }
+        ));
+    }
+    let out = match &ran {
+        Ran::Ok(ids, md) => {
+            if let Some((mv, rw)) = md {
+                suffix = format!(" => {} | {} | {}", list(ids), list(mv), list(rw));
+            }
+            // ORACLE (independent of any model): only relabelled, within the input's range
+            if ids.len() != n {
+                verdict = Some((format!("length-changed@{}", algo), format!("{} ids in, {} out", n, ids.len())));
+            } else if let Some(p) = ids.iter().position(|&i| i > max0) {
+                verdict = Some((
+                    format!("id-out-of-range@{}", algo),
+                    format!("element {} got id {} > largest input id {} (ids {:?})", p, ids[p], max0, ids),
+                ));
+            } else if matches!(c, Case::Fm { .. } | Case::Kl { .. })
+                && ids.iter().any(|i| !ids0.contains(i))
+            {
+                verdict = Some((
+                    format!("id-out-of-range@{}", algo),
+                    format!("two-way algorithm wrote a label the input does not use: {:?} -> {:?}", ids0, ids),
+                ));
+            }
+            if let Case::KMeans { .. } = c {
+                // what the hook saw must explain the result: ids only ever drawn from the input's ids,
+                // and the array returned is the array after the last sweep
+                let last = sweeps.last().map(|(a, _)| a.as_slice()).unwrap_or(&ids0[..]);
+                if last != &ids[..] && verdict.is_none() {
+                    verdict = Some((
+                        "kmeans-final-differs-from-last-sweep".into(),
+                        format!("last sweep {:?}, returned {:?}", last, ids),
+                    ));
+                }
+                for (k, (a, cids)) in sweeps.iter().enumerate() {
+                    let bad_a = a.iter().any(|i| !ids0.contains(i));
+                    let mut s1 = cids.clone();
+                    s1.sort();
+                    let mut s0 = ids0.clone();
+                    s0.sort();
+                    s0.dedup();
+                    if (bad_a || s1 != s0) && verdict.is_none() {
+                        verdict = Some((
+                            "kmeans-sweep-foreign-id".into(),
+                            format!("sweep {}: assignments {:?}, center_ids {:?}, input {:?}", k, a, cids, ids0),
+                        ));
+                    }
+                }
+            }
+            if ids != &ids0 {
+                ctx.count(&format!("{}:changed", algo));
+            } else {
+                ctx.count(&format!("{}:unchanged", algo));
+            }
+            format!("ok {}", join(ids))
+        }
+        Ran::Err(e) => {
+            verdict = Some((format!("unexpected-error@{}", algo), format!("Err({}) on an input inside the contract", e)));
+            format!("err {}", e)
+        }
+        Ran::Panic(m) => {
+            verdict = Some((panic_sig(m), format!("{} [{}]", m, algo)));
+            format!("panic {}", m)
+        }
+        Ran::Hang => {
+            verdict = Some((format!("hang@{}", algo), "watchdog (20 s)".into()));
+            "hang".to_string()
+        }
+    };
+    match &in_contract {
+        Ok(()) => ctx.count(&format!("{}:in-contract", algo)),
+        Err(w) => {
+            ctx.count(&format!("{}:outside-contract:{}", algo, w));
+            // outside the quantifier the property claims nothing (errors and the documented
+            // panics are legitimate); a hang is still reported
+            if !matches!(ran, Ran::Hang) {
+                verdict = None;
+            }
+        }
+    }
+    let nontrivial = in_contract.is_ok() && n >= 2 && max0 >= 1;
+    let idx = ctx.record(format!("{}{}", base, suffix), out, nontrivial);
+    if let Some((sig, what)) = verdict {
+        ctx.fail(idx, &sig, what);
+    }
+}
+
+// ------------------------------------------------------------------ generator
+
+type Edges = Vec<(usize, usize, i64)>;
+
+fn rows_of(n: usize, edges: &Edges) -> Rows {
+    let mut rows: Rows = vec![vec![]; n];
+    for &(u, v, w) in edges {
+        if u != v && !rows[u].iter().any(|(x, _)| *x == v) {
+            rows[u].push((v, w));
+            rows[v].push((u, w));
+        }
+    }
+    for r in rows.iter_mut() {
+        r.sort();
+    }
+    rows
+}
+
+/// A symmetric loop-free graph on exactly `n` vertices with positive integer edge weights.
+fn gen_graph(ctx: &mut Ctx, n: usize) -> (Rows, &'static str) {
+    let wmode = ctx.rng.usize(3);
+    let ew = |rng: &mut Rng| match wmode {
+        0 => 1,
+        1 => rng.range(1, 3),
+        _ => rng.range(1, 1000),
+    };
+    let mut edges: Edges = vec![];
+    let shape = match ctx.rng.usize(8) {
+        0 | 1 => {
+            let den = *ctx.rng.pick(&[15u64, 30, 60]);
+            for u in 0..n {
+                for v in 0..u {
+                    if ctx.rng.chance(den, 100) {
+                        edges.push((u, v, ew(&mut ctx.rng)));
+                    }
+                }
+            }
+            "random"
+        }
+        2 | 3 => {
+            // rows of width b (the last one may be shorter)
+            let b = 1 + ctx.rng.usize(n.min(6));
+            for v in 0..n {
+                if (v + 1) % b != 0 && v + 1 < n {
+                    edges.push((v, v + 1, ew(&mut ctx.rng)));
+                }
+                if v + b < n {
+                    edges.push((v, v + b, ew(&mut ctx.rng)));
+                }
+            }
+            "grid"
+        }
+        4 => {
+            let n1 = 1 + ctx.rng.usize(n - 1);
+            for u in 0..n {
+                for v in 0..u {
+                    if (u < n1) == (v < n1) && ctx.rng.chance(50, 100) {
+                        edges.push((u, v, ew(&mut ctx.rng)));
+                    }
+                }
+            }
+            "disconnected"
+        }
+        5 => {
+            let live: Vec<bool> = (0..n).map(|_| ctx.rng.chance(60, 100)).collect();
+            for u in 0..n {
+                for v in 0..u {
+                    if live[u] && live[v] && ctx.rng.chance(40, 100) {
+                        edges.push((u, v, ew(&mut ctx.rng)));
+                    }
+                }
+            }
+            "isolated"
+        }
+        6 => {
+            let kind = ctx.rng.usize(3);
+            for u in 1..n {
+                match kind {
+                    0 => edges.push((u, u - 1, ew(&mut ctx.rng))),
+                    1 => edges.push((u, 0, ew(&mut ctx.rng))),
+                    _ => {
+                        edges.push((u, u - 1, ew(&mut ctx.rng)));
+                        if u == n - 1 && n > 2 {
+                            edges.push((u, 0, ew(&mut ctx.rng)));
+                        }
+                    }
+                }
+            }
+            "path-star-cycle"
+        }
+        _ => {
+            if n <= 8 {
+                for u in 0..n {
+                    for v in 0..u {
+                        edges.push((u, v, ew(&mut ctx.rng)));
+                    }
+                }
+                "complete"
+            } else {
+                "edgeless"
+            }
+        }
+    };
+    (rows_of(n, &edges), shape)
+}
+
+/// A valid partition of `n ≥ k` elements into exactly `k` parts.
+fn gen_valid_ids(ctx: &mut Ctx, n: usize, k: usize) -> (Vec<usize>, &'static str) {
+    let (mut ids, name): (Vec<usize>, &'static str) = match ctx.rng.usize(6) {
+        0 => {
+            // one big part, all others of size 1
+            let big = ctx.rng.usize(k);
+            let mut v = vec![big; n];
+            let mut pos: Vec<usize> = (0..n).collect();
+            ctx.rng.shuffle(&mut pos);
+            let mut q = 0;
+            for p in 0..k {
+                if p != big {
+                    v[pos[q]] = p;
+                    q += 1;
+                }
+            }
+            (v, "ids:singletons")
+        }
+        1 => ((0..n).map(|i| i * k / n).collect(), "ids:blocks"),
+        2 => ((0..n).map(|i| i % k).collect(), "ids:interleaved"),
+        3 => ((0..n).map(|i| k - 1 - i * k / n).collect(), "ids:blocks-reversed"),
+        _ => ((0..n).map(|_| ctx.rng.usize(k)).collect(), "ids:random"),
+    };
+    // repair: every id must be used
+    for p in 0..k {
+        if !ids.contains(&p) {
+            // take an element from a part that has at least two
+            let mut cand: Vec<usize> =
+                (0..n).filter(|&i| ids.iter().filter(|&&x| x == ids[i]).count() >= 2).collect();
+            ctx.rng.shuffle(&mut cand);
+            ids[cand[0]] = p;
+        }
+    }
+    (ids, name)
+}
+
+fn gen_weights(ctx: &mut Ctx, n: usize) -> (Vec<i64>, &'static str) {
+    let (mut w, name): (Vec<i64>, &'static str) = match ctx.rng.usize(6) {
+        0 => (vec![1; n], "w:unit"),
+        1 => ((0..n).map(|_| ctx.rng.range(1, 9)).collect(), "w:small"),
+        2 => ((0..n).map(|_| ctx.rng.range(0, 2)).collect(), "w:zeros"),
+        3 => {
+            let mut w: Vec<i64> = (0..n).map(|_| ctx.rng.range(0, 5)).collect();
+            let k = ctx.rng.usize(n);
+            w[k] = ctx.rng.range(50, 500);
+            (w, "w:dominant")
+        }
+        4 => ((0..n).map(|_| ctx.rng.range(0, 1_000_000)).collect(), "w:wide"),
+        _ => {
+            // all zero but one
+            let mut w = vec![0; n];
+            let k = ctx.rng.usize(n);
+            w[k] = ctx.rng.range(1, 9);
+            (w, "w:single-nonzero")
+        }
+    };
+    if w.iter().all(|&x| x == 0) {
+        w[0] = 1;
+    }
+    (w, name)
+}
+
+const CAPS: [Option<f64>; 4] = [None, Some(0.0), Some(0.1), Some(1.0)];
+
+fn cap_name(mi: Option<f64>) -> String {
+    match mi {
+        None => "None".into(),
+        Some(x) => format!("{}", x),
+    }
+}
+
+fn threads_of(ctx: &mut Ctx) -> usize {
+    *ctx.rng.pick(&[1usize, 4])
+}
+
+fn gen_vn(ctx: &mut Ctx, best: bool) -> Case {
+    let k = 2 + ctx.rng.usize(7);
+    let span = if ctx.rng.chance(1, 4) { 2 } else { 24 };
+    let n = k + ctx.rng.usize(span);
+    let (ids, im) = gen_valid_ids(ctx, n, k);
+    let (ws, wm) = gen_weights(ctx, n);
+    let ty = *ctx.rng.pick(&["i64", "u64", "f64"]);
+    let a = if best { "vnbest" } else { "vnfirst" };
+    ctx.count(&format!("{}:{}", a, im));
+    ctx.count(&format!("{}:{}", a, wm));
+    ctx.count(&format!("{}:parts:{}", a, k));
+    Case::Vn { best, ty: ty.into(), threads: threads_of(ctx), ws, ids }
+}
+
+fn lim(ctx: &mut Ctx, n: usize) -> Option<usize> {
+    match ctx.rng.usize(6) {
+        0 | 1 => None,
+        2 => Some(0),
+        3 => Some(1),
+        4 => Some(n),
+        _ => Some(1 + ctx.rng.usize(4)),
+    }
+}
+
+fn gen_kl(ctx: &mut Ctx) -> Case {
+    let n = 2 + ctx.rng.usize(if ctx.quick() { 11 } else { 15 });
+    let (ids, im) = gen_valid_ids(ctx, n, 2);
+    let (rows, shape) = gen_graph(ctx, n);
+    let mp = lim(ctx, n);
+    let mf = lim(ctx, n);
+    let mb = *ctx.rng.pick(&[0usize, 1, 1, 2, 5]);
+    ctx.count(&format!("kl:{}", im));
+    ctx.count(&format!("kl:graph:{}", shape));
+    ctx.count(&format!("kl:max_passes:{}", opt_none(mp.map(|x| x.min(2)))));
+    ctx.count(&format!("kl:max_flips:{}", opt_none(mf.map(|x| x.min(2)))));
+    Case::Kl { threads: threads_of(ctx), mp, mf, mb, wlen: n, ids, rows }
+}
+
+fn gen_fm(ctx: &mut Ctx) -> Case {
+    let n = 2 + ctx.rng.usize(if ctx.quick() { 9 } else { 12 });
+    let (ids, im) = gen_valid_ids(ctx, n, 2);
+    let (rows, shape) = gen_graph(ctx, n);
+    let (ws, wm) = gen_weights(ctx, n);
+    let mi = *ctx.rng.pick(&CAPS);
+    let mb = *ctx.rng.pick(&[0usize, 1, 2, 5, usize::MAX]);
+    let mp = lim(ctx, n);
+    let mm = lim(ctx, n);
+    ctx.count(&format!("fm:{}", im));
+    ctx.count(&format!("fm:graph:{}", shape));
+    ctx.count(&format!("fm:{}", wm));
+    ctx.count(&format!("fm:max_imbalance:{}", cap_name(mi)));
+    ctx.count(&format!("fm:max_passes:{}", opt_none(mp.map(|x| x.min(2)))));
+    ctx.count(&format!("fm:max_moves:{}", opt_none(mm.map(|x| x.min(2)))));
+    Case::Fm { threads: threads_of(ctx), f64w: ctx.rng.chance(1, 3), mi, mb, mp, mm, rows, ids, ws }
+}
+
+fn gen_arcswap(ctx: &mut Ctx) -> Case {
+    let k = 2 + ctx.rng.usize(7);
+    let span = if ctx.rng.chance(1, 4) { 2 } else { 40 };
+    let n = k + ctx.rng.usize(span);
+    let (ids, im) = gen_valid_ids(ctx, n, k);
+    let (rows, shape) = gen_graph(ctx, n);
+    let (ws, wm) = gen_weights(ctx, n);
+    let mi = *ctx.rng.pick(&CAPS);
+    ctx.count(&format!("arcswap:{}", im));
+    ctx.count(&format!("arcswap:graph:{}", shape));
+    ctx.count(&format!("arcswap:{}", wm));
+    ctx.count(&format!("arcswap:max_imbalance:{}", cap_name(mi)));
+    ctx.count(&format!("arcswap:parts:{}", k));
+    Case::ArcSwap { threads: threads_of(ctx), f64w: ctx.rng.chance(1, 3), mi, rows, ids, ws }
+}
+
+fn gen_kmeans(ctx: &mut Ctx) -> Case {
+    let dim = 2 + ctx.rng.usize(2);
+    let k = 2 + ctx.rng.usize(7);
+    let span = if ctx.rng.chance(1, 4) { 2 } else { 40 };
+    let n = k + ctx.rng.usize(span);
+    let (ids, im) = gen_valid_ids(ctx, n, k);
+    let (pm, coords): (&str, Vec<i64>) = match ctx.rng.usize(7) {
+        0 => ("pts:uniform", (0..n * dim).map(|_| ctx.rng.range(0, 1023)).collect()),
+        1 => {
+            // k' blobs
+            let kb = 1 + ctx.rng.usize(k + 1);
+            let cs: Vec<i64> = (0..kb * dim).map(|_| ctx.rng.range(0, 2000)).collect();
+            let mut v = vec![];
+            for _ in 0..n {
+                let b = ctx.rng.usize(kb);
+                for d in 0..dim {
+                    v.push(cs[b * dim + d] + ctx.rng.range(-40, 40));
+                }
+            }
+            ("pts:blobs", v)
+        }
+        2 => {
+            // on a line (axis parallel or oblique)
+            let dir: Vec<i64> = (0..dim).map(|_| ctx.rng.range(-2, 2)).collect();
+            let mut v = vec![];
+            for _ in 0..n {
+                let t = ctx.rng.range(0, 60);
+                for d in 0..dim {
+                    v.push(t * dir[d] * 16);
+                }
+            }
+            ("pts:collinear", v)
+        }
+        3 => {
+            let p: Vec<i64> = (0..dim).map(|_| ctx.rng.range(-50, 50)).collect();
+            ("pts:identical", (0..n * dim).map(|i| p[i % dim]).collect())
+        }
+        4 => {
+            // few distinct positions, many duplicates (the K5 shape)
+            let m = 1 + ctx.rng.usize(3);
+            let ps: Vec<i64> = (0..m * dim).map(|_| ctx.rng.range(0, 4) * 32).collect();
+            let mut v = vec![];
+            for _ in 0..n {
+                let b = ctx.rng.usize(m);
+                for d in 0..dim {
+                    v.push(ps[b * dim + d]);
+                }
+            }
+            ("pts:duplicates", v)
+        }
+        5 => {
+            // integer lattice
+            let b = 1 + ctx.rng.usize(6) as i64;
+            let mut v = vec![];
+            for i in 0..n as i64 {
+                v.push((i % b) * 16);
+                v.push((i / b) * 16);
+                if dim == 3 {
+                    v.push(0);
+                }
+            }
+            ("pts:lattice", v)
+        }
+        _ => ("pts:wide", (0..n * dim).map(|_| ctx.rng.range(-1_000_000_000, 1_000_000_000)).collect()),
+    };
+    let (ws, wm) = gen_weights(ctx, n);
+    let max_iter = *ctx.rng.pick(&[0usize, 1, 5, 5, 500]);
+    let max_balance_iter = 1 + ctx.rng.usize(3);
+    let tol = *ctx.rng.pick(&[0.0f64, 0.5, 5.0, 1e9]);
+    let delta = *ctx.rng.pick(&[0.0f64, 0.01, 1.0, 1e9]);
+    let erode = ctx.rng.chance(1, 3);
+    let mbr = ctx.rng.chance(1, 3);
+    let a = if dim == 2 { "kmeans2" } else { "kmeans3" };
+    ctx.count(&format!("{}:{}", a, im));
+    ctx.count(&format!("{}:{}", a, pm));
+    ctx.count(&format!("{}:{}", a, wm));
+    ctx.count(&format!("{}:parts:{}", a, k));
+    ctx.count(&format!("kmeans:max_iter:{}", max_iter));
+    ctx.count(&format!("kmeans:max_balance_iter:{}", max_balance_iter));
+    ctx.count(&format!("kmeans:erode:{}", erode));
+    ctx.count(&format!("kmeans:mbr_early_break:{}", mbr));
+    Case::KMeans {
+        dim,
+        threads: threads_of(ctx),
+        tol,
+        delta,
+        max_iter,
+        max_balance_iter,
+        erode,
+        mbr,
+        ids,
+        coords,
+        ws,
+    }
+}
+
+/// All valid partitions of `n` elements with exactly `k` parts (ids 0..k all used).
+fn all_valid_ids(n: usize, k: usize) -> Vec<Vec<usize>> {
+    let mut out = vec![];
+    let total = k.pow(n as u32);
+    for code in 0..total {
+        let mut c = code;
+        let v: Vec<usize> = (0..n)
+            .map(|_| {
+                let d = c % k;
+                c /= k;
+                d
+            })
+            .collect();
+        if (0..k).all(|p| v.contains(&p)) {
+            out.push(v);
+        }
+    }
+    out
+}
+
+pub fn generate(ctx: &mut Ctx) {
+    // (1) exhaustive small sub-spaces -------------------------------------------------------
+    // KMeans: every valid 2- and 3-part partition of up to 5 (quick) / 6 points placed on a fixed
+    // pattern with a duplicated position, two settings
+    let pattern: [(i64, i64); 6] = [(0, 0), (0, 0), (32, 0), (32, 0), (16, 48), (80, 16)];
+    let nmax = ctx.budget(5, 6);
+    for n in 2..=nmax {
+        for k in 2..=3usize.min(n) {
+            for ids in all_valid_ids(n, k) {
+                for (max_iter, mbi, erode) in [(5usize, 1usize, false), (1, 2, true)] {
+                    let c = Case::KMeans {
+                        dim: 2,
+                        threads: 1,
+                        tol: 0.0,
+                        delta: 0.0,
+                        max_iter,
+                        max_balance_iter: mbi,
+                        erode,
+                        mbr: false,
+                        ids: ids.clone(),
+                        coords: pattern[..n].iter().flat_map(|&(x, y)| [x, y]).collect(),
+                        ws: vec![4; n],
+                    };
+                    ctx.count("stream:exhaustive-kmeans");
+                    run_op(ctx, &format_op(&c));
+                }
+            }
+        }
+    }
+    // two-way algorithms: every valid two-way partition of the path and the cycle on 2..=6 vertices
+    for n in 2..=ctx.budget(5, 6) {
+        for cyc in [false, true] {
+            let mut edges: Edges = (1..n).map(|u| (u, u - 1, 1)).collect();
+            if cyc && n > 2 {
+                edges.push((n - 1, 0, 2));
+            }
+            let rows = rows_of(n, &edges);
+            for ids in all_valid_ids(n, 2) {
+                for (mp, mf, mb) in [(None, None, 1usize), (Some(1), Some(0), 0)] {
+                    ctx.count("stream:exhaustive-twoway");
+                    run_op(ctx, &format_op(&Case::Kl { threads: 1, mp, mf, mb, wlen: n, ids: ids.clone(), rows: rows.clone() }));
+                    run_op(
+                        ctx,
+                        &format_op(&Case::Fm {
+                            threads: 1,
+                            f64w: false,
+                            mi: if mb == 0 { Some(0.0) } else { None },
+                            mb,
+                            mp,
+                            mm: mf,
+                            rows: rows.clone(),
+                            ids: ids.clone(),
+                            ws: (1..=n as i64).collect(),
+                        }),
+                    );
+                }
+                ctx.count("stream:exhaustive-arcswap");
+                run_op(
+                    ctx,
+                    &format_op(&Case::ArcSwap {
+                        threads: 1,
+                        f64w: false,
+                        mi: None,
+                        rows: rows.clone(),
+                        ids: ids.clone(),
+                        ws: vec![1; n],
+                    }),
+                );
+            }
+        }
+    }
+    ctx.notes.push(format!(
+        "exhaustive sub-spaces: KMeans on every valid 2-/3-part partition of 2..={} points (fixed pattern with \
+         duplicated positions) x 2 settings; KL, FM (2 settings each) and ArcSwap on every valid two-way partition \
+         of the path and the cycle with 2..={} vertices",
+        nmax,
+        ctx.budget(5, 6)
+    ));
+    // (2) random, valid inputs, all six ------------------------------------------------------
+    let per = ctx.budget(250, 6000);
+    for _ in 0..per {
+        let c = gen_vn(ctx, true);
+        run_op(ctx, &format_op(&c));
+        let c = gen_vn(ctx, false);
+        run_op(ctx, &format_op(&c));
+        let c = gen_kl(ctx);
+        run_op(ctx, &format_op(&c));
+        let c = gen_fm(ctx);
+        run_op(ctx, &format_op(&c));
+        let c = gen_arcswap(ctx);
+        run_op(ctx, &format_op(&c));
+        let c = gen_kmeans(ctx);
+        run_op(ctx, &format_op(&c));
+    }
+    // (3) a small stream outside the contract (the models' abort paths; no oracle) -----------
+    for _ in 0..ctx.budget(20, 200) {
+        // KMeans on a partition with an unused id
+        if let Case::KMeans { dim, threads, tol, delta, max_iter, max_balance_iter, erode, mbr, mut ids, coords, ws } =
+            gen_kmeans(ctx)
+        {
+            let m = *ids.iter().max().unwrap();
+            let hole = ctx.rng.usize(m);
+            for i in ids.iter_mut() {
+                if *i == hole {
+                    *i = m;
+                }
+            }
+            run_op(
+                ctx,
+                &format_op(&Case::KMeans { dim, threads, tol, delta, max_iter, max_balance_iter, erode, mbr, ids, coords, ws }),
+            );
+        }
+        // three labels for the two-way algorithms
+        if let Case::Kl { threads, mp, mf, mb, wlen, mut ids, rows } = gen_kl(ctx) {
+            if ids.len() >= 3 {
+                let p = ctx.rng.usize(ids.len());
+                ids[p] = 2;
+                if ids.contains(&0) && ids.contains(&1) {
+                    run_op(ctx, &format_op(&Case::Kl { threads, mp, mf, mb, wlen, ids, rows }));
+                }
+            }
+        }
+        if let Case::Fm { threads, f64w, mi, mb, mp, mm, rows, mut ids, ws } = gen_fm(ctx) {
+            let p = ctx.rng.usize(ids.len());
+            ids[p] = 2;
+            run_op(ctx, &format_op(&Case::Fm { threads, f64w, mi, mb, mp, mm, rows, ids, ws }));
+        }
+    }
 }
